@@ -21,7 +21,7 @@ class AlphaVectorPolicy(ValueBasedTabularPOMDPPolicy):
 
     def _belief_to_vector(self, belief):
         if isinstance(belief, Distribution):
-            b = [belief.get(s, 0.0) for s in self.pomdp.state_list]
+            b = [belief.prob(s) for s in self.pomdp.state_list]
         elif isinstance(belief, Belief):
             ss, b = belief
             assert len(ss) == len(b)
